@@ -841,3 +841,88 @@ Qed.
 Example reduce_rule_on_witness :
   teqb (front 0 (fst (reduce_rule kz [1%Z] wr 0))) (vmap_spec1 (prim_axes kz [1%Z]) wr 0) = true.
 Proof. vm_compute. reflexivity. Qed.
+
+(* ================================================================== axis-list REDUCTIONS with keepdims *)
+(* Images jax2onnx/plugins/jax/numpy/_reduction_utils.py : register_reduction_batch_rule, the shared vmap rule of the
+   jnp.sum / max / min / amax / amin / any / all substitutes: move the batch axis to the front, shift the (canonical) axes by
+   one, bind the primitive on the batched array with the user's keepdims, report batch dim 0.
+   A reduction is a kernel on fibers; which dimensions are reduced is a boolean mask over the dimensions. *)
+Definition rkernel (A : Type) := list nat -> (list nat -> A) -> A.
+Definition rkernel_ext {A} (rk : rkernel A) : Prop := forall e f g, (forall sub, f sub = g sub) -> rk e f = rk e g.
+
+Fixpoint rshape (keep : bool) (mask : list bool) (s : list nat) : list nat :=
+  match mask, s with
+  | true :: m, _ :: r => if keep then 1 :: rshape keep m r else rshape keep m r
+  | false :: m, d :: r => d :: rshape keep m r
+  | _, _ => []
+  end.
+Fixpoint rext (mask : list bool) (s : list nat) : list nat :=
+  match mask, s with
+  | true :: m, d :: r => d :: rext m r
+  | false :: m, _ :: r => rext m r
+  | _, _ => []
+  end.
+(* operand index from the output index o and the coordinates `sub` along the reduced axes *)
+Fixpoint rmerge (keep : bool) (mask : list bool) (o sub : list nat) : list nat :=
+  match mask with
+  | [] => []
+  | true :: m => hd 0 sub :: rmerge keep m (if keep then tl o else o) (tl sub)
+  | false :: m => hd 0 o :: rmerge keep m (tl o) sub
+  end.
+Definition reduceop {A} (rk : rkernel A) (mask : list bool) (keep : bool) (x : tensor A) : tensor A :=
+  mkT (rshape keep mask (shape x)) (fun o => rk (rext mask (shape x)) (fun sub => at_ x (rmerge keep mask o sub))).
+
+Definition mask_of (n : nat) (axes : list nat) : list bool := map (fun i => existsb (Nat.eqb i) axes) (seq 0 n).
+(* int(ax) % slice_rank ;  axes=None means all *)
+Definition canonmod (r : nat) (a : Z) : nat := Z.to_nat (a mod Z.of_nat r)%Z.
+Definition axes_nat (r : nat) (axes : option (list Z)) : list nat :=
+  match axes with None => seq 0 r | Some l => map (canonmod r) l end.
+(* what the USER wrote: prim(x, axes, keepdims) on the unbatched operand *)
+Definition reduce_axes {A} (rk : rkernel A) (axes : option (list Z)) (keep : bool) (x : tensor A) : tensor A :=
+  reduceop rk (mask_of (rank x) (axes_nat (rank x) axes)) keep x.
+
+(* the shared rule: operand = bdim_at_front(operand); axes_full = (ax + 1 for ax in axes_norm) / range(1, ndim);
+   out = prim.bind(operand, axes=axes_full, keepdims=...); return out, 0 *)
+Definition reduction_batch_rule {A} (rk : rkernel A) (axes : option (list Z)) (keep : bool) (x : tensor A) (d : nat) : tensor A * nat :=
+  let x' := front d x in
+  let slice_rank := rank x' - 1 in
+  (reduceop rk (mask_of (rank x') (map S (axes_nat slice_rank axes))) keep x', 0).
+
+Lemma mask_of_shift r ax : mask_of (S r) (map S ax) = false :: mask_of r ax.
+Proof.
+  unfold mask_of. cbn [seq map]. f_equal.
+  - induction ax as [|a ax IH]; simpl; auto.
+  - rewrite <- seq_shift, map_map. apply map_ext. intro i.
+    induction ax as [|a ax IH]; simpl; auto. f_equal. exact IH.
+Qed.
+
+Theorem reduction_batch_rule_correct {A} (rk : rkernel A) axes keep (x : tensor A) d :
+  rkernel_ext rk -> d < rank x ->
+  teq (front (snd (reduction_batch_rule rk axes keep x d)) (fst (reduction_batch_rule rk axes keep x d)))
+      (vmap_spec1 (reduce_axes rk axes keep) x d).
+Proof.
+  intros Hk Hd. unfold reduction_batch_rule. cbn [fst snd].
+  assert (Hl : length (remove_at d (shape x)) = rank x - 1) by (now apply remove_at_length).
+  assert (Hr : rank (front d x) = S (rank x - 1)).
+  { unfold rank. simpl. rewrite Hl. reflexivity. }
+  assert (Hrs : forall b, rank (slice d x b) = rank x - 1).
+  { intro b. unfold rank. simpl. exact Hl. }
+  rewrite Hr. replace (S (rank x - 1) - 1) with (rank x - 1) by lia. rewrite mask_of_shift.
+  unfold teq, front, vmap_spec1, stack0, reduce_axes, reduceop. cbn [shape at_ slice]. rewrite Hrs.
+  cbn [rshape nth remove_at]. split; [reflexivity|].
+  intros idx Hi. destruct idx as [|b r]; [inversion Hi|]. cbn [hd tl insert_at rext rmerge].
+  apply Hk. intro sub. reflexivity.
+Qed.
+
+(* integer reduction kernel for the differential tie: position-weighted fiber sum *)
+Definition rkz : rkernel Z := fun ext fib =>
+  fold_left Z.add (map (fun sub => Z.of_nat (1 + ravel_aux 0 ext sub) * fib sub)%Z (all_idx ext)) 0%Z.
+Lemma rkz_ext : rkernel_ext rkz.
+Proof. intros e f g H. unfold rkz. f_equal. apply map_ext. intro sub. now rewrite H. Qed.
+
+(* keepdims matters: sum(axis=0, keepdims=True) on per-example [2,2] mapped along axis 1 is [B,1,2], batch dim 0 *)
+Example reduction_rule_keepdims_witness :
+  let x := of_flat [2; 3; 2] [1; 2; 3; 4; 5; 6; 7; 8; 9; 10; 11; 12]%Z in
+  shape (fst (reduction_batch_rule rkz (Some [0%Z]) true x 1)) = [3; 1; 2] /\
+  teqb (front 0 (fst (reduction_batch_rule rkz (Some [0%Z]) true x 1))) (vmap_spec1 (reduce_axes rkz (Some [0%Z]) true) x 1) = true.
+Proof. vm_compute. split; reflexivity. Qed.
